@@ -61,7 +61,205 @@ def same_projection(a, b):
     return False
 
 
+def _bind_kind(line):
+    f = line.split(" ", 2)
+    return f[0], (f[1] if len(f) > 1 else "")
+
+
+def proj_bind_c03(line):
+    """generated SQL and the named arguments (name, value identity) of accepted calls; errors only as reject"""
+    k, _ = _bind_kind(line)
+    if k == "OK":
+        return line
+    if k in ("PREPARE-ERR", "QUERY-ERR", "PARSE-ERR"):
+        return "REJECTED"
+    return line
+
+
+C04_CLASSES = ("mix-zero", "slice-len0", "mismatch-bulk", "omit-explicit", "nil-ptr-in-slice", "nil-map-in-slice")
+
+
+def proj_bind_c04(line):
+    """as C03, plus the class of the value-dependent insert rejections"""
+    k, c = _bind_kind(line)
+    if k == "OK":
+        return line
+    if k == "QUERY-ERR" and c in C04_CLASSES:
+        return line
+    if k in ("PREPARE-ERR", "QUERY-ERR", "PARSE-ERR"):
+        return "REJECTED"
+    return line
+
+
+def proj_bind_c05(line):
+    """generated SQL and whether the driver sees Query or Exec"""
+    f = line.split(" ")
+    if f[0] == "OK":
+        return " ".join(f[:3])
+    if f[0] in ("PREPARE-ERR", "QUERY-ERR", "PARSE-ERR"):
+        return "REJECTED"
+    return line
+
+
+def proj_bind_c07(line):
+    """Prepare accepted or rejected (with class); an internal error anywhere"""
+    k, c = _bind_kind(line)
+    if k == "PREPARE-ERR":
+        return line
+    if "INTERNAL" in line or k in ("PANIC", "NO-EVENTS-NO-ERROR"):
+        return line
+    if k == "PARSE-ERR":
+        return k
+    return "PREPARED"
+
+
+def proj_bind_c08(line):
+    """Query arguments accepted or rejected (with class)"""
+    k, c = _bind_kind(line)
+    if k == "QUERY-ERR":
+        return line
+    if k == "OK":
+        return "ACCEPTED"
+    if k in ("PREPARE-ERR", "PARSE-ERR"):
+        return "NOT-PREPARED"
+    return line
+
+
+def same_bind_projection(a, b):
+    if a == b:
+        return True
+    fa, fb = a.split(), b.split()
+    if len(fa) == 2 and len(fb) == 2 and fa[0] == fb[0] and fa[0].endswith("-ERR") and "other" in (fa[1], fb[1]):
+        return True
+    return False
+
+
 # --------------------------------------------------------------------- runners
+
+def run_bind(ctx, pid, run, idx, replay, BUILD, ROOT):
+    out = os.path.join(ctx.rundir, "bind%d" % idx)
+    os.makedirs(out, exist_ok=True)
+    n = run["n"][ctx.tier]
+    cmd = [os.path.join(BUILD, "harness"), "bind", "-seed", str(ctx.seed + 1000 * idx), "-n", str(n), "-out", out]
+    if replay is not None:
+        cmd += ["-replay", replay]
+    rc, log = sh(cmd, timeout=3600)
+    res = {"failing": [], "diffs": [], "coverage": {}}
+    if rc not in (0, 4):
+        res["diffs"].append({"correspondence": "bind", "error": "harness failed: " + log[-500:]})
+        return res
+    with open(os.path.join(out, "cases.txt")) as f:
+        cases = f.read()
+    rc, model = sh([os.path.join(BUILD, "modelrun")], inp=cases, timeout=3600)
+    open(os.path.join(out, "model.txt"), "w").write(model)
+    impl = open(os.path.join(out, "impl.txt")).read().splitlines()
+    model = model.splitlines()
+    cl = cases.splitlines()
+    proj = run["project"]
+    ndiff = 0
+    for i in range(min(len(impl), len(model))):
+        a, b = proj(impl[i]), proj(model[i])
+        if not same_bind_projection(a, b):
+            ndiff += 1
+            if len(res["diffs"]) < 20:
+                casefile = os.path.join(ctx.replaydir, "%s-bindcase-%d.txt" % (pid, len(res["diffs"])))
+                open(casefile, "w").write(cl[i] + "\n")
+                res["diffs"].append({"correspondence": "binding model (coq/Model/TypeInfo.v, Bind.v) vs internal/typeinfo + internal/expr",
+                                     "case_file": casefile, "implementation": a[:600], "model": b[:600]})
+    if len(impl) != len(model):
+        res["diffs"].append({"correspondence": "bind", "error": "result counts differ: impl %d model %d" % (len(impl), len(model))})
+    for l in open(os.path.join(out, "oracle.jsonl")):
+        v = json.loads(l)
+        if v["property"] in run.get("oracle_props", [pid]):
+            v["layer"] = "bind"
+            res["failing"].append(v)
+    st = json.load(open(os.path.join(out, "stats.json")))
+    res["coverage"] = {
+        "evaluations": st["cases"], "distinct_nontrivial": st["distinct_nontrivial"],
+        "programs": st["cases"], "disagreements_checked": ndiff,
+        "rule": run.get("rule", BIND_RULE), "samples": st["samples"][:6],
+        "input_distribution": {k: st[k] for k in ("result_kinds", "error_classes", "ok_with_insert", "ok_with_outputs",
+                                                  "ok_with_bulk_rows", "unknown_error_wordings")},
+        "exhaustive": False,
+    }
+    return res
+
+
+def run_iter(ctx, pid, run, idx, replay, BUILD, ROOT):
+    out = os.path.join(ctx.rundir, "iter%d" % idx)
+    os.makedirs(out, exist_ok=True)
+    n = run["n"][ctx.tier]
+    cmd = [os.path.join(BUILD, "harness"), "iter", "-seed", str(ctx.seed + 1000 * idx), "-n", str(n), "-out", out,
+           "-exhaustive", str(run.get("exhaustive", {}).get(ctx.tier, 0))]
+    rc, log = sh(cmd, timeout=3600)
+    res = {"failing": [], "diffs": [], "coverage": {}}
+    if rc not in (0, 4):
+        res["diffs"].append({"correspondence": "iter", "error": "harness failed: " + log[-500:]})
+        return res
+    with open(os.path.join(out, "cases.txt")) as f:
+        cases = f.read()
+    rc, model = sh([os.path.join(BUILD, "modelrun")], inp=cases, timeout=3600)
+    open(os.path.join(out, "model.txt"), "w").write(model)
+    impl = open(os.path.join(out, "impl.txt")).read().splitlines()
+    model = model.splitlines()
+    cl = cases.splitlines()
+    proj = run.get("project", lambda c, l: l)
+    ndiff = 0
+    for i in range(min(len(impl), len(model))):
+        a, b = proj(cl[i], impl[i]), proj(cl[i], model[i])
+        if a != b and "other:" not in a:
+            ndiff += 1
+            if len(res["diffs"]) < 20:
+                res["diffs"].append({"correspondence": "iterator model (coq/Model/Iter.v) vs sqlair.go Iterator/Get/GetAll on database/sql",
+                                     "case": cl[i], "implementation": a, "model": b})
+    if len(impl) != len(model):
+        res["diffs"].append({"correspondence": "iter", "error": "result counts differ: impl %d model %d" % (len(impl), len(model))})
+    for l in open(os.path.join(out, "oracle.jsonl")):
+        v = json.loads(l)
+        if v["property"] in run.get("oracle_props", [pid]):
+            v["layer"] = "iter"
+            v["case"] = bytes.fromhex(v["query_hex"][1:]).decode()
+            res["failing"].append(v)
+    st = json.load(open(os.path.join(out, "stats.json")))
+    res["coverage"] = {
+        "evaluations": st["cases"], "distinct_nontrivial": st["distinct_nontrivial"],
+        "programs": st["cases"], "disagreements_checked": ndiff,
+        "rule": ITER_RULE, "samples": st["samples"][:6],
+        "input_distribution": {k: st[k] for k in ("request_kinds", "run_kinds", "error_classes", "unknown_error_wordings")},
+        "exhaustive": False,
+    }
+    return res
+
+
+ITER_RULE = ("scripted driver results (0-4 rows, unconvertible rows, fetch failure at any position, failing driver close, "
+             "run error, cancelled context) x call sequences over {Next, Get(valid), Get(&Outcome), Get(nil Outcome), "
+             "Get(invalid), Close, cancel} of length <= 10, plus Query.Get and Query.GetAll calls with every argument mistake; "
+             "all op sequences up to a fixed length over 5 ops x 8 scripts enumerated first; non-trivial iff distinct and "
+             "(sequence longer than one op or a Get/GetAll call)")
+
+
+def proj_iter_account(case, line):
+    """C13: only the accounting of the result set (closes, closed) and whether the call returned"""
+    f = line.split()
+    return f[-1] if f else line
+
+
+def proj_iter_full(case, line):
+    return line
+
+
+def proj_iter_c15(case, line):
+    """C15: Get / GetAll results only"""
+    if case.startswith("(iter "):
+        return ""
+    return line
+
+
+BIND_RULE = ("(statement, sample list, argument list) triples from the seeded typed statement generator over the type zoo "
+             "(all expression forms, value/pointer/slice/slice-of-pointer arguments, zero patterns, deliberate mistakes); "
+             "type shapes and argument values are dumped by the harness's own reflection walk; a case is non-trivial iff "
+             "distinct and the statement parses")
+
 
 def run_parse(ctx, pid, run, idx, replay, BUILD, ROOT):
     out = os.path.join(ctx.rundir, "parse%d" % idx)
@@ -118,7 +316,7 @@ def run_parse(ctx, pid, run, idx, replay, BUILD, ROOT):
     return res
 
 
-RUNNERS = {"parse": run_parse}
+RUNNERS = {"parse": run_parse, "bind": run_bind, "iter": run_iter}
 
 
 def merge(a, b):
@@ -170,7 +368,24 @@ PARSE_RULE = ("queries from the seeded token-level grammar fuzzer (statement tem
               "token soup, byte mutations; corpus first); a case is non-trivial iff it is distinct and either "
               "rejected or accepted with at least one expression segment")
 
+def bind_run(project, oracle_props, nq=4000, nt=200000):
+    return {"kind": "bind", "n": {"quick": nq, "thorough": nt}, "project": project, "oracle_props": oracle_props}
+
+
+def iter_run_spec(project, oracle_props, nq=4000, nt=200000):
+    return {"kind": "iter", "n": {"quick": nq, "thorough": nt}, "project": project, "oracle_props": oracle_props,
+            "exhaustive": {"quick": 4, "thorough": 6}}
+
+
 PROPS = {
+    "C13": {"runs": [iter_run_spec(proj_iter_account, ["C13"])]},
+    "C14": {"runs": [iter_run_spec(proj_iter_full, ["C14"])]},
+    "C15": {"runs": [iter_run_spec(proj_iter_c15, ["C15"])]},
+    "C03": {"uses_genconsts": True, "runs": [bind_run(proj_bind_c03, ["C03"])]},
+    "C04": {"uses_genconsts": True, "runs": [bind_run(proj_bind_c04, ["C04"])]},
+    "C05": {"uses_genconsts": True, "runs": [bind_run(proj_bind_c05, ["C05"])]},
+    "C07": {"uses_genconsts": True, "runs": [bind_run(proj_bind_c07, ["C07"])]},
+    "C08": {"uses_genconsts": True, "runs": [bind_run(proj_bind_c08, ["C08"])]},
     "C01": {
         "uses_genconsts": True,
         "runs": [
